@@ -139,14 +139,9 @@ ActionClauses(e) ==
                 /\ o.plat = pre.plat /\ o.name = pre.name /\ o.grpBy = pre.grpBy, e, "C17.settings")
          \o Chk(o.id = pre.id /\ o.note = pre.note, e, "C16.acl-identifier-or-note-changed")
     [] e.act = "SetType" ->       \* acl.type = "standard" | "extended"
-         LET toStd(x) == IF IsAce(x) THEN [x EXCEPT !.f = [x.f EXCEPT !.proto = 0, !.sp = NoPort, !.dp = NoPort, !.flags = <<>>, !.logs = <<>>,
-                                                                  !.dst = [k |-> "wild", w |-> AnyW, name |-> "", mem |-> <<>>]]] ELSE x
-             conv(x) == IF e.typ = "standard" /\ pre.typ = "extended" THEN toStd(x) ELSE x
-             pred == [k \in 1..Len(pre.items) |-> IF IsBlock(pre.items[k])
-                                                  THEN [pre.items[k] EXCEPT !.items = [j \in 1..Len(pre.items[k].items) |-> conv(pre.items[k].items[j])]]
-                                                  ELSE conv(pre.items[k])]
+         LET pred == IF e.typ = "standard" /\ pre.typ = "extended" THEN ToStandardItems(pre.items) ELSE pre.items
              refused == \/ (e.typ = "standard" /\ pre.plat = "nxos")
-                        \/ (e.typ = "standard" /\ pre.typ = "extended" /\ \E k \in 1..Len(Fl(pre.items)) : IsAce(Fl(pre.items)[k]) /\ Fl(pre.items)[k].f.src.k = "group")
+                        \/ (e.typ = "standard" /\ pre.typ = "extended" /\ StandardRefused(pre.items))
          IN  Chk(refused = (e.exc # ""), e, "C17.type-change-accept-or-refuse")
              \o (IF e.exc # "" \/ refused THEN Chk(o = pre, e, "C17.refused-type-change-left-the-list-half-converted") ELSE
                  Compare(e, Regroup(pre, pred), o.items, old, "C17")
@@ -155,7 +150,7 @@ ActionClauses(e) ==
     [] e.act = "SetPlatform" ->
          LET split == IF e.plat = "nxos" THEN UngroupPortsItems(pre.items) ELSE pre.items
              pred  == IF e.plat = "nxos" THEN Regroup(pre, split) ELSE split
-             unsafe == \E k \in 1..Len(Fl(pre.items)) : NeedsSplit(Fl(pre.items)[k]) /\ ~SplitKeepsMeaning(Fl(pre.items)[k].f)
+             unsafe == UnsafeSplitIn(pre.items)
          IN  Chk(e.exc = "", e, "C02.conversion-raised")
              \o (IF e.exc # "" THEN <<>> ELSE
                  Compare(e, pred, o.items, old, "C02")
@@ -164,7 +159,7 @@ ActionClauses(e) ==
                  \o Chk(~(e.plat = "nxos" /\ unsafe), e, "C19.multi-port-neq-split-changes-meaning"))
     [] e.act = "UngroupPorts" ->
          LET pred == Regroup(pre, UngroupPortsItems(pre.items))
-             unsafe == \E k \in 1..Len(Fl(pre.items)) : NeedsSplit(Fl(pre.items)[k]) /\ ~SplitKeepsMeaning(Fl(pre.items)[k].f)
+             unsafe == UnsafeSplitIn(pre.items)
          IN  Chk(e.exc = "", e, "C19.split-raised")
              \o Compare(e, pred, o.items, old, "C19")
              \o Chk(SameSettings(o, pre), e, "C19.settings")
